@@ -67,14 +67,38 @@ func reschedulable(p *corev1.Pod) bool {
 	return true
 }
 
+// minAdvertisedCapacity: the smallest ReservationCapacity any offering of any catalog advertises for the reservation id.
+func minAdvertisedCapacity(d *common.DWorld, id string) int {
+	min := -1
+	for _, its := range d.Types {
+		for _, it := range its {
+			for _, of := range it.Offerings {
+				if of.CapacityType() == v1.CapacityTypeReserved && of.ReservationID() == id && (min < 0 || of.ReservationCapacity < min) {
+					min = of.ReservationCapacity
+				}
+			}
+		}
+	}
+	return min
+}
+
 func run(r *mon.Report, tier string, idx int, rng *rand.Rand) {
 	cfg := common.DefaultDCfg()
 	s2s := rng.Intn(3) == 0
 	opts, optDesc := common.RandomOptions(rng)
 	opts.FeatureGates = test.FeatureGates{SpotToSpotConsolidation: &s2s}
 	optDesc["spotToSpot"] = s2s
-	cfg.Scenario.Options = opts
 	cfg.Scenario.Catalog.Reserved = false
+	if rng.Intn(3) == 0 {
+		// capacity reservations, half of them exhausted (offering present but unavailable): a cheap unavailable offering must
+		// not make an instance type look cheaper than it can launch
+		yes := true
+		opts.FeatureGates.ReservedCapacity = &yes
+		cfg.Scenario.Catalog.Reserved = true
+		cfg.Scenario.Catalog.PReservedUnavailable = 0.5
+		optDesc["reservedCapacity"] = true
+	}
+	cfg.Scenario.Options = opts
 	cfg.Scenario.Pod.PPreferred = 0
 	if s2s && rng.Intn(2) == 0 {
 		cfg.Scenario.Catalog.MinTypes, cfg.Scenario.Catalog.MaxTypes = 16, 24
@@ -306,6 +330,17 @@ func judge(r *mon.Report, d *common.DWorld, cmd *disruption.Command, cs map[stri
 			if worstOf.CapacityType() == v1.CapacityTypeOnDemand && admitsSpot {
 				key = "on-demand-fallback-not-cheaper"
 			}
+			// classification: was the option priced by an AVAILABLE reserved offering below the candidates' price that the
+			// claim is not pinned to, while the same reservation id is advertised with zero capacity elsewhere in the catalogs
+			// (the ReservationManager tracks the smallest advertised capacity, so it refused to reserve)?
+			if !ctReq.Has(v1.CapacityTypeReserved) {
+				for _, of := range it.Offerings {
+					if of.Available && of.CapacityType() == v1.CapacityTypeReserved && of.Price < sum && minAdvertisedCapacity(d, of.ReservationID()) == 0 {
+						key += ":priced-by-available-reserved-offering-whose-id-is-advertised-with-zero-capacity-elsewhere"
+						break
+					}
+				}
+			}
 			r.Violate(key, fmt.Sprintf("replacement option %s can launch in %s/%s at $%.4f which is not below the $%.4f of the nodes it replaces", it.Name, worstOf.Zone(), worstOf.CapacityType(), worst, sum), cs,
 				witness(map[string]any{"requirements": nc.Requirements.String(), "option": it.Name}))
 			break
@@ -412,7 +447,7 @@ var _ = gen.Q
 func init() {
 	reg.Register(&reg.Prop{
 		ID: "C06", Level: "exploration",
-		Rule: "each case = cluster grown through the real pipeline (2-5 provisioning rounds, hostile provider picking random launch choices → over-provisioned / underutilised / empty nodes after a fraction of the workload is removed), price tables with ties, spot/on-demand inversions and unavailable offerings, pools with WhenEmpty / WhenEmptyOrUnderutilized / Balanced policies, SpotToSpot gate both ways (16-24 types when on), pods with boundary eviction costs; 2-5 reconciles of the real disruption controller (all methods, 15 s validation on the virtual clock). Every Underutilized/Empty command that entered the orchestration queue is judged: homes for all reschedulable candidate pods (admissibility oracle), <=1 replacement, every replacement option strictly cheaper in its worst admitted launch, spot-to-spot and on-demand fallback rules, Empty only with non-positive eviction costs. Non-trivial = a command was judged; distinct by (reason, #candidates, #replacements, all-spot).",
+		Rule:  "each case = cluster grown through the real pipeline (2-5 provisioning rounds, hostile provider picking random launch choices → over-provisioned / underutilised / empty nodes after a fraction of the workload is removed), price tables with ties, spot/on-demand inversions and unavailable offerings, pools with WhenEmpty / WhenEmptyOrUnderutilized / Balanced policies, SpotToSpot gate both ways (16-24 types when on), pods with boundary eviction costs; 2-5 reconciles of the real disruption controller (all methods, 15 s validation on the virtual clock). Every Underutilized/Empty command that entered the orchestration queue is judged: homes for all reschedulable candidate pods (admissibility oracle), <=1 replacement, every replacement option strictly cheaper in its worst admitted launch, spot-to-spot and on-demand fallback rules, Empty only with non-positive eviction costs. Non-trivial = a command was judged; distinct by (reason, #candidates, #replacements, all-spot).",
 		Cases: cases, Run: run,
 		MinObserved: map[string]int{"consolidation_commands": 20, "empty_commands": 20},
 	})
